@@ -410,3 +410,7 @@ pub fn concat_oov_nodes(
     path.drain(begin + 1..end);
     Ok(path)
 }
+
+// verification hook: harness text lives outside the repository (see MANIFEST.hooks)
+#[cfg(any(kani, sudachi_verif))]
+include!(concat!(env!("SUDACHI_VERIF_DIR"), "/analysis__node.rs"));
